@@ -317,10 +317,10 @@ theorem tokenize_lexemes2 (doC : Bool) (ts : List Lex2) (h : ∀ t ∈ ts, t.WF)
 
 /-! ## the well-formedness predicates are decidable (the driver evaluates them on generated lexeme lists) -/
 
-instance (t : Lex) : Decidable t.WF := by
+instance lexWFDecidable (t : Lex) : Decidable t.WF := by
   cases t <;> simp only [Lex.WF] <;> infer_instance
 
-instance (t : Lex2) : Decidable t.WF := by
+instance lex2WFDecidable (t : Lex2) : Decidable t.WF := by
   cases t <;> simp only [Lex2.WF, IsU, IsR, IsL] <;> infer_instance
 
 end CssVerif.Tok
